@@ -164,3 +164,11 @@ Fixpoint without_splits (h : list (option hevent)) : list hevent :=
   | None :: t => without_splits t
   | Some e :: t => e :: without_splits t
   end.
+
+(* ---------- a transport buffer that is not contiguous (RecvStream::Buf is any Buf: a chain, a deque of segments):
+   stream.rs BufRecvStream::poll_read hands it to buf.rs BufList::push_bytes; what enters the receive buffer is read
+   from the source (Gen/GenBufList.v).  The chunk [c] of [c03_arrive] is that. ---------- *)
+From H3V Require Import Gen.GenBufList.
+Definition pushed (segments : list bytes) : bytes :=
+  if push_bytes_copies_whole_buffer then concat segments
+  else match segments with s :: _ => s | [] => [] end.
